@@ -28,6 +28,14 @@ SHORTCUT_KEY = "directional_mean:one-column-shortcut-unwrapped"
 
 ROWS = [1, 2, 3, 4]
 COLS = [1, 2, 3, 4, 5, 6]
+# wide matrices (SIMD / unrolling boundaries), each crossed with a few styles per run
+WIDE_SHAPES = [(1, 16), (2, 17), (3, 15), (4, 32), (5, 33), (6, 31), (7, 40), (8, 8), (8, 40), (5, 7), (8, 1), (6, 2), (7, 3), (1, 40), (2, 24)]
+ROWS_ALL = [1, 2, 3, 4, 5, 6, 7, 8]
+COLS_ALL = [1, 2, 3, 4, 5, 6, 7, 8, 12, 15, 16, 17, 24, 31, 32, 33, 40]
+
+
+def extra_shape(r):
+    return (r.choice(ROWS), r.choice(COLS)) if r.random() < 0.7 else (r.choice(ROWS_ALL), r.choice(COLS_ALL))
 
 
 def dist_mod(x):
@@ -89,8 +97,11 @@ def gen_addsub(g, shapes, n_extra):
     r = g.r
     cases = []
     todo = [(rows, cols, st) for (rows, cols) in shapes for st in STYLES]
+    for sh in WIDE_SHAPES:
+        for st in r.sample(STYLES, 3):
+            todo.append((sh[0], sh[1], st))
     for _ in range(n_extra):
-        todo.append((r.choice(ROWS), r.choice(COLS), r.choice(STYLES)))
+        todo.append(extra_shape(r) + (r.choice(STYLES),))
     for rows, cols, st in todo:
         op = r.choice(["dadd", "dsub"])
         a = gen_matrix(r, rows, cols, st)
@@ -252,8 +263,11 @@ def gen_mean(g, shapes, n_extra, stats):
     r = g.r
     cases = []
     todo = [(rows, cols, st) for (rows, cols) in shapes for st in MEAN_STYLES]
+    for sh in WIDE_SHAPES:
+        for st in r.sample(MEAN_STYLES[:-1], 4):
+            todo.append((sh[0], sh[1], st))
     for _ in range(n_extra):
-        todo.append((r.choice(ROWS), r.choice(COLS), r.choice(MEAN_STYLES)))
+        todo.append(extra_shape(r) + (r.choice(MEAN_STYLES),))
     for rows, cols, st in todo:
         for attempt in range(50):
             wstyle = r.choice(W_STYLES)
@@ -336,6 +350,9 @@ def check_addsub(idx, cases, hres, dres, stats, problems):
             v = h[j * rows + i]
             s = Fraction(a[i][j]) + sgn * Fraction(b[i])
             tol = tol_angle(a[i][j], b[i])
+            if math.isnan(v) or math.isinf(v):
+                problems.append(("prop", op + ":not-finite", "%s(%r, %r) = %r for finite inputs" % (op, a[i][j], b[i], v), idx))
+                continue
             if not in_range(v):
                 problems.append(("prop", op + ":out-of-range", "%s(%r, %r) = %r is not in (-pi, pi]" % (op, a[i][j], b[i], v), idx))
                 continue
@@ -400,6 +417,9 @@ def check_mean(idx, cases, hres, dres, stats, problems):
         cond = math.fsum(abs(wk) * (1.0 + abs(x)) for x, wk in zip(a[i], w)) / L
         tol = 16 * EPS * cond + 16 * EPS
         sk = mean_key(cols, v, a[i][0])
+        if math.isnan(v) or math.isinf(v):
+            problems.append(("prop", "directional_mean:not-finite", "directional_mean(%r, w=%r) = %r for finite inputs" % (a[i], w, v), idx))
+            continue
         if not in_range(v):
             problems.append(("prop", sk or "directional_mean:out-of-range",
                              "directional_mean(%r, w=%r) = %r is not in (-pi, pi]" % (a[i], w, v), idx))
@@ -575,7 +595,7 @@ def run(ctx):
                       {"harness": "h_dir", "input_lines": [cases[i][0]], "log": log[-1500:]})
     ctx.coverage.update({
         "evaluations": len(cases), "distinct_nontrivial": len(distinct),
-        "rule": "every shape rows 1..4 x columns 1..6 crossed with every angle style (small, huge up to 1e6*pi, rounded multiples of pi, "
+        "rule": "every shape rows 1..4 x columns 1..6 crossed with every angle style, wide shapes up to 8 x 40 (columns 7, 8, 12, 15, 16, 17, 24, 31, 32, 33, 40) crossed with sampled styles (small, huge up to 1e6*pi, rounded multiples of pi, "
                 "+-pi and neighbours, dyadic, tiny/zero/subnormal, mixed; for the mean also constant rows, arcs < half turn, sigma-point layouts, and prescribed short resultants of length log-uniform in "
                 "[1.2e-6, 1e-2]: antipodal pairs with unequal weights, nearly antipodal pairs, near-cancelling unscented sets, almost uniform circles) "
                 "plus random extra cases; each base case is followed by sibling cases (2 pi-shifted arguments; common rotation) run through the "
